@@ -1382,7 +1382,7 @@ fn main() {
         let h = gen_hdr(&mut r, &prop);
         let nops = r.range(1, 40) as usize;
         let mut cnt = 0;
-        let res = {
+        let res = catch_unwind(AssertUnwindSafe(|| {
             let rr = &mut r;
             let mut next = |info: &Info| {
                 if cnt >= nops {
@@ -1392,6 +1392,17 @@ fn main() {
                 gen_op(rr, info, &prop)
             };
             if h.fusedev { run_fusedev(&h, sock, &mut next) } else { run_virtio(&h, sock, &mut next) }
+        }));
+        let res = match res {
+            Ok(r) => r,
+            Err(_) => {
+                // a panic outside the per-operation guards: counters or constructors of the
+                // implementation (or the harness's own bookkeeping) broke down
+                let line = format!("{} ops=", h.show());
+                write_hits(&mut out, &line, &[(prop.clone(), format!("{}:panic:outside-operation", prop), format!("case {} of seed {} panicked outside an operation call", i, seed))]);
+                let _ = drain(sock.1);
+                continue;
+            }
         };
         let line = format!("{} ops={}", h.show(), res.ops.iter().map(|o| o.show()).collect::<Vec<_>>().join(";"));
         out.stat(if h.fusedev { "t:fusedev" } else { "t:virtio" });
